@@ -44,6 +44,12 @@ func Header(ns string) string {
 type Op struct {
 	Read  bool
 	Write []xml.Token
+	// Via says how the tokens are written: 0 = EncodeToken for each token; 1..4 =
+	// Encode(value) with a value that is an xmlstream.Marshaler / an xmlstream.WriterTo / an
+	// xml.TokenReader / a plain struct (only for `<iq type= id=/>`); 5, 6 =
+	// EncodeElement(value, start) with a Marshaler / WriterTo whose outer element is replaced
+	// by the first token of Write
+	Via int
 }
 
 // Prog is a handler program: the steps and the value returned ("ok", "fail", "eof").
@@ -53,6 +59,8 @@ type Prog struct {
 	// Close: the handler first closes the session's output (Session.Close), before it
 	// reads or writes anything
 	Close bool
+	// Deadline: the handler first calls SetCloseDeadline with a time in the "future" or the "past"
+	Deadline string
 }
 
 func (p Prog) Enc() string {
@@ -60,11 +68,20 @@ func (p Prog) Enc() string {
 	if p.Close {
 		f = append(f, "c")
 	}
+	switch p.Deadline {
+	case "future":
+		f = append(f, "df")
+	case "past":
+		f = append(f, "dp")
+	}
 	for _, o := range p.Ops {
-		if o.Read {
+		switch {
+		case o.Read:
 			f = append(f, "r")
-		} else {
+		case o.Via == 0:
 			f = append(f, "w"+common.EncToks(o.Write))
+		default:
+			f = append(f, fmt.Sprintf("v%d", o.Via)+common.EncToks(o.Write))
 		}
 	}
 	return strings.Join(f, ",")
@@ -90,6 +107,85 @@ type wrapErr struct {
 
 func (w wrapErr) Error() string { return w.msg + ": " + w.err.Error() }
 func (w wrapErr) Unwrap() error { return w.err }
+
+// values handed to Encode / EncodeElement
+
+type tokMarshaler struct{ toks []xml.Token }
+
+func (m tokMarshaler) TokenReader() xml.TokenReader { return &sliceReader{toks: copyToks(m.toks)} }
+
+type tokWriterTo struct{ toks []xml.Token }
+
+func (m tokWriterTo) WriteXML(w xmlstream.TokenWriter) (int, error) {
+	return xmlstream.Copy(w, &sliceReader{toks: copyToks(m.toks)})
+}
+
+// TokenReader makes tokWriterTo acceptable where a Marshaler is demanded too.
+func (m tokWriterTo) TokenReader() xml.TokenReader { return &sliceReader{toks: copyToks(m.toks)} }
+
+type sliceReader struct {
+	toks []xml.Token
+	i    int
+}
+
+func (r *sliceReader) Token() (xml.Token, error) {
+	if r.i >= len(r.toks) {
+		return nil, io.EOF
+	}
+	r.i++
+	return r.toks[r.i-1], nil
+}
+
+func copyToks(ts []xml.Token) []xml.Token {
+	out := make([]xml.Token, len(ts))
+	for i, t := range ts {
+		out[i] = xml.CopyToken(t)
+	}
+	return out
+}
+
+type iqStruct struct {
+	XMLName xml.Name `xml:"iq"`
+	Type    string   `xml:"type,attr"`
+	ID      string   `xml:"id,attr"`
+}
+
+// StructWritable reports whether the tokens are `<iq type=… id=…></iq>` without namespace,
+// which the plain struct value of Via 4 marshals to.
+func StructWritable(ts []xml.Token) bool {
+	if len(ts) != 2 {
+		return false
+	}
+	st, ok := ts[0].(xml.StartElement)
+	return ok && st.Name == (xml.Name{Local: "iq"}) && len(st.Attr) == 2 &&
+		st.Attr[0].Name == (xml.Name{Local: "type"}) && st.Attr[1].Name == (xml.Name{Local: "id"}) &&
+		st.Attr[0].Value != "" && st.Attr[1].Value != ""
+}
+
+func writeVia(t xmlstream.TokenReadEncoder, o Op) error {
+	switch o.Via {
+	case 1:
+		return t.Encode(tokMarshaler{o.Write})
+	case 2:
+		return t.Encode(tokWriterTo{o.Write})
+	case 3:
+		return t.Encode(&sliceReader{toks: copyToks(o.Write)})
+	case 4:
+		st := o.Write[0].(xml.StartElement)
+		return t.Encode(iqStruct{Type: st.Attr[0].Value, ID: st.Attr[1].Value})
+	}
+	// EncodeElement: the value's outer element is a placeholder, the real start is given
+	st, ok := o.Write[0].(xml.StartElement)
+	if !ok || len(o.Write) < 2 {
+		return errors.New("verif: EncodeElement needs an element")
+	}
+	ph := xml.StartElement{Name: xml.Name{Local: "placeholder"}}
+	inner := append(append([]xml.Token{ph}, o.Write[1:len(o.Write)-1]...), ph.End())
+	if o.Via == 5 {
+		return t.EncodeElement(tokMarshaler{inner}, st.Copy())
+	}
+	return t.EncodeElement(tokWriterTo{inner}, st.Copy())
+}
 
 // ErrHandler is what a program with Ret "fail" returns.
 var ErrHandler = errors.New("verif: handler failed")
@@ -126,6 +222,12 @@ func Exec(p Prog, t xmlstream.TokenReadEncoder, inv *Invocation) error {
 				if tok != nil {
 					inv.Toks = append(inv.Toks, xml.CopyToken(tok))
 				}
+			}
+			continue
+		}
+		if o.Via != 0 {
+			if err := writeVia(t, o); err != nil {
+				inv.WErr = append(inv.WErr, err.Error())
 			}
 			continue
 		}
@@ -232,6 +334,12 @@ func ServeHook(ns string, local, remote jid.JID, body []byte, progs []Prog, mk f
 		if p.Close {
 			_ = s.Close()
 		}
+		switch p.Deadline {
+		case "future":
+			_ = s.SetCloseDeadline(time.Now().Add(time.Hour))
+		case "past":
+			_ = s.SetCloseDeadline(time.Unix(1, 0))
+		}
 		return Exec(p, t, &res.Invs[len(res.Invs)-1])
 	})
 	var h xmpp.Handler = rec
@@ -271,6 +379,10 @@ func ErrClass(err error) string {
 		return "handler"
 	case errors.Is(err, xmpp.ErrOutputStreamClosed):
 		return "output-closed"
+	case errors.Is(err, context.DeadlineExceeded), errors.Is(err, context.Canceled):
+		return "deadline"
+	case strings.Contains(err.Error(), "abandoned in the middle of an element"):
+		return "output-broken"
 	case errors.As(err, &ste):
 		return "handler"
 	case errors.Is(err, ErrHandler), err == io.ErrUnexpectedEOF, strings.Contains(err.Error(), "received IQ with invalid payload"):
@@ -370,6 +482,13 @@ func Written(ns string, out []byte) (els []Elem, closed bool, err error) {
 			var syn *xml.SyntaxError
 			if errors.As(e, &syn) && strings.Contains(e.Error(), "unexpected EOF") && depth == 0 {
 				return els, closed, nil
+			}
+			// an element a handler left open: report it as the last (partial) element
+			if len(cur) > 0 {
+				els = append(els, mkElem(cur))
+			}
+			if bytes.HasSuffix(bytes.TrimSpace(out), []byte("</stream:stream>")) {
+				closed = true
 			}
 			return els, closed, e
 		}
